@@ -10,6 +10,8 @@ import (
 	"errors"
 	"fmt"
 	"net"
+	"os"
+	"path/filepath"
 	"runtime"
 	"sync"
 	"sync/atomic"
@@ -519,6 +521,11 @@ func withHangConfirmation(c any, run func() (ev.Outcome, bool)) ev.Outcome {
 	}
 	if o2.Fail != "" {
 		return o2
+	}
+	// keep what the non-reproduced time-clause failure looked like (diagnosis of the harness)
+	if dir := os.Getenv("MUXDEBUG"); dir != "" {
+		b, _ := json.MarshalIndent(map[string]any{"case": c, "verdict": o.Fail, "history": o.History}, "", " ")
+		_ = os.WriteFile(filepath.Join(dir, fmt.Sprintf("overloaded-%d-%d.json", os.Getpid(), time.Now().UnixNano())), b, 0o644)
 	}
 	o2.Overloaded = true
 	return o2
